@@ -24,6 +24,12 @@ def run(res):
     # the worker model (quota, recycle status, what counts as an executed job)
     before = len(res.alarms)
     worker.correspond(res, 120 if res.tier == 'quick' else 4000)
+    # recorded findings of C03 (the worker protocol's own property) are reported by ./check C03,
+    # not once more under this property; everything else the worker run raises counts here
+    c03_known = {k['signature'] for k in core.load_known() if k.get('status') == 'known' and k.get('property') == 'C03'}
+    kept = [a for a in res.alarms[before:] if a['signature'] not in c03_known]
+    del res.alarms[before:]
+    res.alarms.extend(kept)
     for a in res.alarms[before:]:
         a['signature'] = a['signature'].replace('C03:', 'C09:worker-')
     pc.real_scenarios(res, 'C09', [dict(kind='recycle', n=2, maxtasks=2, jobs=12)] if res.tier == 'quick' else [dict(kind='recycle', n=n, maxtasks=m, jobs=6 * n * m, watchdog=90) for n in (1, 2, 4) for m in (1, 2, 3)])
